@@ -235,6 +235,9 @@ class K:
             if t == 'bits': return f'(zlen {a})', 'Z', 'pure'
         if f in ('min', 'max') and len(call.args) == 2:
             a, b = self.args(call, env, ['Z', 'Z']); return f'(Z.{f} {a} {b})', 'Z', 'pure'
+        if f in ('int', 'operator.index') and len(call.args) == 1 and not call.keywords:
+            a, t = self._expr(call.args[0], env)             # int() / operator.index() of an int (or bool, an int subclass): the same integer
+            if t == 'Z': return a, 'Z', 'pure'
         if f == 'slice' and len(call.args) == 3:
             a, b, c = self.args(call, env, ['optZ', 'optZ', 'optZ']); return f'(mkslice {a} {b} {c})', 'slice', 'pure'
         if f in ('self.__class__', 'Bits', 'BitStore') and not call.args and not call.keywords:
